@@ -1,4 +1,5 @@
 """C08 — the C engine stays within its buffers and executes no undefined behaviour."""
+import json
 import os
 import re
 import subprocess
@@ -168,6 +169,54 @@ def native(tier, seed, scratch):
                     # (the rule above); never a verdict on the library, but never silently "held" either
                     inconc.append("valgrind shard %d: report(s) without a repository frame (driver defect?): %s"
                                   % (sh, blk[:400]))
+        # (4) the Python-level workloads under valgrind memcheck (PYTHONMALLOC=malloc): the only stage that sees *uses of
+        # uninitialised memory* inside the kernels and the Cython glue (ASan does not).  One small shard per module.
+        from vf import runner as _runner
+        venv = _runner._worker_env(tree, "plain", str(out))
+        venv["PYTHONMALLOC"] = "malloc"
+        venv["VF_SCALE"] = "0.03"
+        vjobs = []
+        for mod in PY_MODS:
+            d = out / ("vgpy-" + mod)
+            d.mkdir(parents=True, exist_ok=True)
+            fe = open(d / "valgrind.txt", "w+")
+            cmd = ["valgrind", "-q", "--error-exitcode=0", "--track-origins=no", "--num-callers=14", _runner.PY, "-m", "vf.worker",
+                   mod, "0", "48", str(seed), "quick", "plain", str(d / "result.json")]
+            vjobs.append((mod, d, fe, subprocess.Popen(cmd, cwd=str(_runner.VERIF), env=venv, stdout=fe, stderr=subprocess.STDOUT)))
+        for mod, d, fe, p in vjobs:
+            try:
+                p.wait(timeout=7000)
+            except subprocess.TimeoutExpired:
+                p.kill()
+                inconc.append("valgrind python shard %s exceeded the wall-clock watchdog" % mod)
+                continue
+            fe.seek(0)
+            se = fe.read()
+            fe.close()
+            if not (d / "result.json").exists():
+                inconc.append("valgrind python shard %s produced no result: %s" % (mod, se[-300:]))
+                continue
+            try:
+                wres = json.loads((d / "result.json").read_text())
+                cov["counters"]["valgrind_python_cases:" + mod] = int(wres.get("evaluations", 0))
+                cov["evaluations"] += int(wres.get("evaluations", 0))
+            except Exception:
+                pass
+            cov["counters"]["valgrind_python_shards"] = cov["counters"].get("valgrind_python_shards", 0) + 1
+            blocks = re.split(r"\n==\d+== \n", se)
+            for blk in blocks:
+                if not re.search(r"== (Invalid (read|write)|Conditional jump|Use of uninitialised|Syscall param)", blk):
+                    continue
+                fm = re.search(r"(?:at|by) 0x[0-9A-F]+: (\w+) \(((?:dd_\w+|dtw_cc\w*|ed_cc|util_numpy_cc)\.c):(\d+)\)", blk)
+                if not fm:
+                    cov["counters"]["valgrind_python_reports_without_repository_frame"] = \
+                        cov["counters"].get("valgrind_python_reports_without_repository_frame", 0) + 1
+                    continue
+                where = "%s %s:%s" % fm.groups()
+                if ("valgrind-python", where) not in seen:
+                    seen[("valgrind-python", where)] = True
+                    viol.append(dict(prop="C08", kind="sanitizer:valgrind", fn=where, flavour="python workload %s under memcheck" % mod,
+                                     report=blk[:2000]))
     return cov, viol, inconc
 
 
